@@ -62,7 +62,7 @@ CHECKS["C03"] = {
 CHECKS["C04"] = {
     "level": "fault_enumeration",
     "technique": _TECH + ": modifying relay between two real endpoints; every cleartext handshake byte and frame perturbed for four handshake shapes",
-    "level_text": "Fault enumeration: for four handshake shapes (no authentication + encryption, CLAIMTOBE, TOKEN, resumed session with reply) a fault-free baseline inside the simulator measures the cleartext frames of each direction; then every byte offset of every cleartext frame (header and payload, both directions) is XORed with 0x01, XORed with 0x80 and zeroed (every 3rd in quick, all in thorough), every frame is removed, an empty partial and an empty complete frame are inserted before and after every frame, every frame is split in two and adjacent partial frames are merged - by an on-path filter inside the simulated connection between a real client and a real server. Oracle: if the relay's output differed from its input, it must not happen that the client's handshake succeeds with encryption on (it would have authenticated the first protected frame) or that the server accepts application data on an encrypted stream. Failures, hangs and outcomes negotiated down to plaintext are acceptable.",
+    "level_text": "Fault enumeration: for four handshake shapes (no authentication + encryption, CLAIMTOBE, TOKEN, SSL with its tunnelled TLS flights and session-key message, resumed session with reply, and the authenticated / unauthenticated shapes with encryption merely OPTIONAL on both ends) a fault-free baseline inside the simulator measures the cleartext frames of each direction; then every byte offset of every cleartext frame (header and payload, both directions) is XORed with 0x01, XORed with 0x80 and zeroed (every 3rd in quick, all in thorough), every frame is removed, an empty partial and an empty complete frame are inserted before and after every frame, every frame is split in two and adjacent partial frames are merged - by an on-path filter inside the simulated connection between a real client and a real server. Oracle: if the relay's output differed from its input, it must not happen that the client's handshake succeeds with encryption on (it would have authenticated the first protected frame) or that the server accepts application data on an encrypted stream. Failures, hangs and outcomes negotiated down to plaintext are acceptable.",
     "level_note": "Shapes are limited to the methods that run in the simulator (no SSL/FS/KERBEROS/SCITOKENS). Whether a downgrade to plaintext is acceptable is C03/C10's subject, not this check's.",
     "budget": {"quick": 30, "thorough": 900},
     "rule": "a case is one handshake shape with one modification of one cleartext frame applied in transit; distinct = distinct event-log hash; non-trivial = the fault fired.",
@@ -74,8 +74,8 @@ CHECKS["C04"] = {
 CHECKS["C19"] = {
     "level": "fault_enumeration",
     "technique": _TECH + ": the k-th read or write of the endpoint under test never completes, for every k, while its context is cancelled or expires before, during and after; virtual clock",
-    "level_text": "Fault enumeration over I/O steps: a fault-free baseline inside the simulator counts the reads and writes (N, typically 10-60) the endpoint under test performs in a plain message exchange (sender and receiver, stream and Message APIs) and in every handshake shape (no authentication + encryption, CLAIMTOBE, TOKEN, FS on the real /tmp, resumed, failed negotiation) in both roles, plus the connection-owning entry points client.ConnectAndAuthenticateWithConfig (through the dial hook) and server.ServeConn; then for every k <= N+1 the k-th read or write is stalled for ever, combined with: an explicit cancel 1 s (virtual) after the stall began, a 30 s deadline context, a cancel at a drawn early instant, a context cancelled before the call, and Background. Oracle: once the context is done the call returns within 1 s of virtual time (a task still parked at quiescence is the violation), with a non-nil error that for plain stream operations is the context's own error; the interrupted connection was closed by the endpoint; the owning entry points close their connection on any error return; Background / never-cancelled / cancelled-after-completion runs succeed.",
-    "level_note": "The peer is an honest real cedar endpoint on a Background context. SSL, KERBEROS and SCITOKENS handshakes are not run (SSL halves do not interoperate; the others need external services). The FS shape uses the real /tmp; the directory an abandoned exchange leaves is removed by the harness (its name is read from the tapped cleartext).",
+    "level_text": "Fault enumeration over I/O steps: a fault-free baseline inside the simulator counts the reads and writes (N, typically 10-60) the endpoint under test performs in a plain message exchange (sender and receiver, stream and Message APIs) and in every handshake shape (no authentication + encryption, CLAIMTOBE, TOKEN, FS on the real /tmp, SSL with a generated CA and server certificate - tunnelled TLS flights, completion confirmations, session-key message -, resumed, failed negotiation) in both roles, plus the connection-owning entry points client.ConnectAndAuthenticateWithConfig (through the dial hook) and server.ServeConn; then for every k <= N+1 the k-th read or write is stalled for ever, combined with: an explicit cancel 1 s (virtual) after the stall began, a 30 s deadline context, a cancel at a drawn early instant, a context cancelled before the call, and Background. Oracle: once the context is done the call returns within 1 s of virtual time (a task still parked at quiescence is the violation), with a non-nil error that for plain stream operations is the context's own error; the interrupted connection was closed by the endpoint; the owning entry points close their connection on any error return; Background / never-cancelled / cancelled-after-completion runs succeed.",
+    "level_note": "The peer is an honest real cedar endpoint on a Background context. KERBEROS and SCITOKENS handshakes are not run (they need external services). The FS shape uses the real /tmp; the directory an abandoned exchange leaves is removed by the harness (its name is read from the tapped cleartext).",
     "budget": {"quick": 25, "thorough": 600},
     "rule": "a case is one (shape, role, stalled step k, cancellation mode) run; distinct = distinct event-log hash (includes where the stall fired and when the connection was closed); non-trivial = a stall fired or the scheduler had a choice.",
     "real": _REAL_SEC + ["client.ConnectAndAuthenticateWithConfig", "server.ServeConn"],
@@ -98,13 +98,13 @@ CHECKS["C11"] = {
 CHECKS["C13"] = {
     "level": "exploration",
     "technique": _TECH + ": every wire-facing decoder as a task fed by a corrupting, truncating, bloating peer (plaintext and encrypted-by-a-key-holding-peer); panic / no-return / allocation / cap oracles; real-time watchdog for spins",
-    "level_text": "Structured fault exploration over decoder inputs delivered through the simulated connection: for each entry point (typed Get* mix, bounded string, SkipString, GetClassAd, GetClassAdWithMaxSize, GetClassAdRaw, SkipClassAdRaw, CCB control and reverse-connect ads, stream-level ReceiveCompleteMessage / StartMessageRead, NewStreamWithCryptoState blobs, and the real ServerHandshake / ClientHandshake fed with a recorded CLAIMTOBE or TOKEN transcript of the other side) a valid message is rendered, then every 8-byte window is overwritten with 10 extreme values (negative, 0, 1, 2^31-1, 2^31, 2^40, 2^62, -2^63, ...), every byte flipped, the message cut at every offset, terminators deleted, the in-band secret marker inserted, values 10-100x the cap inserted for capped readers, hostile framing injected (hundreds of thousands of empty partial frames, huge lengths, bad end flags) - in plaintext and, for the typed layer, encrypted by a peer that holds the key. Oracle per case: the decoder task does not panic, has returned once the peer closed (a task that never reaches a simulator primitive is caught by a 20 s real-time watchdog and reported as no-progress), heap+stack growth during the call <= 64 KiB + 64 x bytes delivered, capped readers fail and consume at most cap + two frames; a worker killed by the address-space limit is attributed to the case that was running (process-crash).",
-    "level_note": "The text parsers named by the property (claim ids, session info, inherit strings, sinful/address/version) are pure functions of a string; they are fed mutated strings by a plain loop inside the same binary - a non-simulation add-on counted in the probes as 'text-parsed'; the claim and its level rest on the wire-facing part. SSL receiveMessage, SCITOKENS and KERBEROS message readers are not reached (those methods do not run in the simulator).",
+    "level_text": "Structured fault exploration over decoder inputs delivered through the simulated connection: for each entry point (typed Get* mix, bounded string, SkipString, GetClassAd, GetClassAdWithMaxSize, GetClassAdRaw, SkipClassAdRaw, CCB control and reverse-connect ads, stream-level ReceiveCompleteMessage / StartMessageRead, NewStreamWithCryptoState blobs, and the real ServerHandshake / ClientHandshake fed with a recorded CLAIMTOBE, TOKEN or SSL transcript of the other side - for SSL with a generated CA and certificate, up to 12 messages: tunnelled TLS flights with their status and length fields, completion confirmations, session key - by a peer that lingers 5 virtual seconds before hanging up) a valid message is rendered, then every 8-byte window is overwritten with 10 extreme values (negative, 0, 1, 2^31-1, 2^31, 2^40, 2^62, -2^63, ...), every byte flipped, the message cut at every offset, terminators deleted, the in-band secret marker inserted, values 10-100x the cap inserted for capped readers (bare, after the in-band secret marker, as many small expressions, and on encrypted streams as a declared-and-delivered over-cap length-prefixed string), genuine exported state blobs cut at every length with capacity == length, hostile framing injected (hundreds of thousands of empty partial frames, huge lengths, bad end flags) - in plaintext and, for the typed layer, encrypted by a peer that holds the key. Oracle per case: the decoder task does not panic, has returned once the peer closed (a task that never reaches a simulator primitive is caught by a 20 s real-time watchdog and reported as no-progress), heap growth during the call <= 2.25 MiB + 64 x bytes delivered + 2 KiB per simulator step and stack growth <= 1 MiB + 8 x bytes delivered, capped readers fail and consume at most cap + two frames; a worker killed by the address-space limit is attributed to the case that was running (process-crash).",
+    "level_note": "The text parsers named by the property (claim ids, session info, inherit strings, sinful/address/version) are pure functions of a string; they are fed mutated strings by a plain loop inside the same binary - a non-simulation add-on counted in the probes as 'text-parsed'; the claim and its level rest on the wire-facing part. The SCITOKENS token reader (behind a completed TLS handshake on the server side, with SCITOKENS configured) and the KERBEROS readers are not reached.",
     "budget": {"quick": 30, "thorough": 900},
     "crash_is_violation": True,
     "mem_gb": 4,
     "rule": "a case is one (entry point, crypto mode, mutation, offset, value) delivered to the real decoder over a simulated connection with drawn short reads; distinct = distinct event-log hash; non-trivial = scheduler had a choice.",
-    "real": ["message.Message decoders", "message ClassAd readers", "stream.Stream receive paths and NewStreamWithCryptoState", "security.Authenticator handshake entry points (CLAIMTOBE, TOKEN, exchangeKey)", "ccb.ReadControlAd / ReadReverseConnectAd", "text parsers (add-on)"],
+    "real": ["message.Message decoders", "message ClassAd readers", "stream.Stream receive paths and NewStreamWithCryptoState", "security.Authenticator handshake entry points (CLAIMTOBE, TOKEN, SSL tunnel, exchangeKey)", "ccb.ReadControlAd / ReadReverseConnectAd", "text parsers (add-on)"],
     "stub": _SIM + ["corrupting peer (mutated recordings)"],
     "assumptions": ["allocation is attributed by runtime/metrics deltas around the serialised decoder call", _SAMPLING],
 }
@@ -187,8 +187,8 @@ CHECKS["C07"] = {
 CHECKS["C10"] = {
     "level": "exploration",
     "technique": _TECH + ": two real endpoints over the simulated network for every cell of the policy matrix; independently written decision table as oracle",
-    "level_text": "Exhaustive over configurations, sampled over transport schedules: every cell of the 4^4 (client/server authentication x encryption level) matrix x 11 method-list shapes (equal, overlapping in different orders, disjoint, empty on either side, unimplemented method first, names cedar does not know at all ahead of or between the usable ones on either side, token listed but not held, token held) x cipher lists (common / none) x command present or auth-only is run as a real client handshake against a real server handshake inside the simulator with drawn segmentation/latency/short reads/window; the oracle is a decision table written from the property statement: which cells must fail (with an explicit denial, not a bare close), which must authenticate, which must encrypt, and that both ends report the same authentication and encryption outcome, session id and key and can exchange a message each way at once. Cells the statement leaves open pass with either outcome as long as the ends agree.",
-    "level_note": "Only CLAIMTOBE and TOKEN are used as methods (SSL halves do not interoperate, FS touches the real /tmp, SCITOKENS/KERBEROS need external services). Cells whose classification depends on reading 'supported' as 'listed' vs 'usable' are agreement-only.",
+    "level_text": "Exhaustive over configurations, sampled over transport schedules: every cell of the 4^4 (client/server authentication x encryption level) matrix x 13 method-list shapes (SSL alone and after an unusable method, with a generated CA and server certificate; equal, overlapping in different orders, disjoint, empty on either side, unimplemented method first, names cedar does not know at all ahead of or between the usable ones on either side, token listed but not held, token held) x cipher lists (common / none) x command present or auth-only is run as a real client handshake against a real server handshake inside the simulator with drawn segmentation/latency/short reads/window; the oracle is a decision table written from the property statement: which cells must fail (with an explicit denial, not a bare close), which must authenticate, which must encrypt, and that both ends report the same authentication and encryption outcome, session id and key and can exchange a message each way at once. Cells the statement leaves open pass with either outcome as long as the ends agree.",
+    "level_note": "CLAIMTOBE, TOKEN and SSL are used as methods (FS touches the real /tmp and is exercised by C18/C19; SCITOKENS/KERBEROS need external services). For SSL without a client certificate the server has no client identity to record, so only the authentication flag is demanded there. Cells whose classification depends on reading 'supported' as 'listed' vs 'usable' are agreement-only.",
     "budget": {"quick": 20, "thorough": 600},
     "rule": "a case is one cell of the configuration matrix run as two real handshakes plus a ping/pong exchange under a drawn transport configuration; distinct = distinct event-log hash; non-trivial = the scheduler had a choice.",
     "real": _REAL_SEC,
